@@ -420,6 +420,40 @@ def unit_libxc_ss(ctx):
             ctx.equal("%s: closed shell E[n/2, n/2] = E[n]" % t, H, ec[g], e1a[g], fq, replay=replay_libxc_ss(xcid))
             ctx.equal("%s: closed shell: both channels carry the unpolarised vrho" % t, H, vrc[1, g], vr1a[0, g], fq)
         ctx.canary("libxc_ss[%s] canary" % xcid, H, e2[0], e1a[0])
+        # frame: the caller's density tuple is left as it was, in either memory layout (plans.get_rho_tuple_with_grad_cross hands over column-major arrays, for
+        # which numpy's as*array conversions return the argument itself); and the result does not depend on the layout
+        for order in ("C", "F"):
+            r_in, s_in = mk2(na, nb, saa, sab, sbb)
+            r_in, s_in = (np.asfortranarray(r_in), np.asfortranarray(s_in)) if order == "F" else (r_in, s_in)
+            r0, s0 = r_in.copy(), s_in.copy()
+            try:
+                eo, vro, vso = run((r_in, s_in))
+            except (PyRaise, Unsupported) as e:
+                ctx.undecided("libxc_ss[%s] runs on %s-ordered input" % (xcid, order), str(e)[:200], fq)
+                continue
+            ctx.holds("libxc_ss[%s]: the caller's (rho, sigma) arrays are unchanged afterwards (%s-ordered input)" % (xcid, order), same_elements(r_in, r0) and same_elements(s_in, s0), "", fq,
+                      witness={"order": order}, replay=replay_libxc_ss_frame(xcid))
+            for g in range(NS):
+                if tm.lift(eo[g]) is not tm.lift(e2[g]):
+                    ctx.equal("libxc_ss[%s] point %d: energy independent of the memory layout of the input (%s)" % (xcid, g, order), H, eo[g], e2[g], fq, replay=replay_libxc_ss_frame(xcid))
+
+
+def replay_libxc_ss_frame(xcid):
+    def replay(wit):
+        from pyvc import native
+        native.install_shim()
+        from ciderpress.dft.baselines import get_libxc_baseline
+        rng = np.random.RandomState(7)
+        ng = 5
+        rho = np.asfortranarray(0.3 + rng.rand(2, ng))
+        sig = np.asfortranarray(0.1 + rng.rand(3, ng))
+        sig[1] = 0.5 * np.sqrt(sig[0] * sig[2])
+        r0, s0 = rho.copy(), sig.copy()
+        e_f = get_libxc_baseline(xcid, (rho, sig))[0]
+        changed = float(max(np.max(np.abs(rho - r0)), np.max(np.abs(sig - s0))))
+        e_c = get_libxc_baseline(xcid, (np.ascontiguousarray(r0), np.ascontiguousarray(s0)))[0]
+        return {"reproduced": bool(changed > 0 or np.max(np.abs(e_f - e_c)) > 1e-12), "input changed by": changed, "energy difference F vs C layout": float(np.max(np.abs(e_f - e_c)))}
+    return replay
 
 
 def replay_libxc_ss(xcid):
